@@ -149,7 +149,7 @@ pub fn run_case(line: &str) -> String {
         Some((out, sw.out))
     }));
     match res {
-        Err(_) => "PANIC".to_string(),
+        Err(p) => if p.is::<crate::util::HangMarker>() { "HANG".to_string() } else { "PANIC".to_string() },
         Ok(None) => "bad-case".to_string(),
         Ok(Some((out, short))) => {
             let rt = if f.starts_with("fa") { reparse_fasta(&out) } else { reparse_fastq(&out) };
